@@ -3,6 +3,9 @@ import Wf.Drv.Serde
 import Wf.Drv.Adapter
 import Wf.Drv.Fields
 import Wf.Drv.FieldCodec
+import Wf.Drv.ProofObjects
+import Wf.Drv.BatchUtils
+import Wf.Drv.Assertions
 
 open Wf.Drv
 
@@ -12,6 +15,9 @@ def dispatch (line : String) : String :=
   | "c27" :: rest => handleAdapter rest
   | "c10" :: rest => handleFields rest
   | "c11" :: rest => handleCodec rest
+  | "obj" :: rest => handleObjects rest
+  | "c14" :: rest => handleBatchUtils rest
+  | "c21" :: rest => handleAssertions rest
   | _ => "bad-family"
 
 partial def loop (h : IO.FS.Stream) (out : IO.FS.Stream) : IO Unit := do
